@@ -36,8 +36,29 @@ class Stats:
         self.queries = 0
         self.solver_s = 0.0
         self.cut_reasons = {}
+        self.xc = []          # sampled queries for the second-solver cross-check: (smt2 text, z3 verdict)
+        self.xc_seen = 0
+
+    def note_query(self, assertions, verdict):
+        """keep a few decided queries (SMT-LIB text + z3's verdict) for the cvc5 cross-check"""
+        self.xc_seen += 1
+        want_unsat = sum(1 for _, v in self.xc if v == "unsat") < XC_PER_STATS
+        want_sat = sum(1 for _, v in self.xc if v == "sat") < 1
+        v = str(verdict)
+        if (v == "unsat" and want_unsat) or (v == "sat" and want_sat and self.xc_seen % 7 == 0):
+            try:
+                q = z3.Solver()
+                q.add(*assertions)
+                txt = q.to_smt2()
+            except Exception:  # noqa: BLE001
+                return
+            if len(txt) < 300000:
+                self.xc.append((txt, v))
 
     def add(self, o):
+        for item in o.xc:
+            if len(self.xc) < XC_PER_PART:
+                self.xc.append(item)
         self.paths += o.paths
         self.cuts += o.cuts
         self.queries += o.queries
@@ -50,6 +71,7 @@ class Stats:
                     solver_s=round(self.solver_s, 3), cut_reasons=dict(self.cut_reasons))
 
 
+XC_PER_STATS, XC_PER_PART = 2, 6
 QUERY_TIMEOUT_MS = 60000
 MAX_DEPTH = 200   # decisions per path; deeper paths are cut (counted, outside the claim)
 
@@ -90,6 +112,10 @@ class Ctx:
         self.stats.solver_s += time.time() - t
         if r == z3.unknown:
             raise Inconclusive(f"solver unknown: {self.solver.reason_unknown()}")
+        if extra and (self.stats.xc_seen < 400 or self.stats.xc_seen % 50 == 0):
+            self.stats.note_query(list(self.solver.assertions()) + list(extra), r)
+        else:
+            self.stats.xc_seen += 1
         return r
 
     def sat(self, *extra):
